@@ -912,6 +912,98 @@ func runC05(ctx *Ctx) *Result {
 		c.Abstract = false
 		runCase(c)
 	}
+	if ctx.Thorough() {
+		// bounded-exhaustive, routes: every device subset of 4 keys (2 destinations x 2 hops) against
+		// every target sequence of up to 3 distinct keys
+		type k4 struct {
+			ip   string
+			plen int
+			hop  string
+		}
+		univ := []k4{{"10.1.1.0", 24, "10.10.1.1"}, {"10.1.1.0", 24, "10.10.1.2"}, {"0.0.0.0", 0, "10.10.1.1"}, {"0.0.0.0", 0, "10.10.1.2"}}
+		var seqs [][]int
+		var rec func(cur []int)
+		rec = func(cur []int) {
+			seqs = append(seqs, append([]int{}, cur...))
+			if len(cur) == 3 {
+				return
+			}
+			for i := range univ {
+				used := false
+				for _, j := range cur {
+					used = used || j == i
+				}
+				if !used {
+					rec(append(cur, i))
+				}
+			}
+		}
+		rec(nil)
+		for mask := 0; mask < 16; mask++ {
+			for _, sq := range seqs {
+				c := &c05Case{Stream: "exhaustive-routes", Abstract: true}
+				for i, u := range univ {
+					if mask&(1<<i) != 0 {
+						c.DevRoutes = append(c.DevRoutes, devRoute{IP: u.ip, Plen: u.plen, Hop: u.hop, Dev: "eth0"})
+					}
+				}
+				for _, i := range sq {
+					u := univ[i]
+					c.TgtRoutes = append(c.TgtRoutes, fmt.Sprintf("ip route add %s/%d via %s", u.ip, u.plen, u.hop))
+				}
+				runCase(c)
+			}
+		}
+		// bounded-exhaustive, spellings: one rule, every combination of the spelling hints of its options
+		negs := []string{"n", "b", "a"}
+		bools := []string{"0", "1"}
+		var one [][]string
+		for _, n := range negs {
+			for _, h := range bools {
+				one = append(one, []string{"j~ACCEPT", "s~" + n + "~10.1.1.1~32~" + h, "d~" + n + "~10.1.1.0~24~" + h})
+			}
+			for _, u := range bools {
+				one = append(one, []string{"j~DROP", "p~" + n + "~tcp~" + u + "~0", "i~" + n + "~eth0"})
+				one = append(one, []string{"j~DROP", "p~" + n + "~#47~" + u + "~0"})
+			}
+		}
+		for _, u := range bools {
+			for _, num := range bools {
+				one = append(one, []string{"j~c1", "p~n~vrrp~" + u + "~" + num}, []string{"g~c1", "p~n~ipv6icmp~" + u + "~" + num})
+			}
+			for _, o := range bools {
+				for z := 0; z < 3; z++ {
+					for _, ps := range []string{"1~0~", "1~80~", "r~0~1023", "r~1024~65535", "r~0~65534", "r~1~65535", "r~80~90"} {
+						one = append(one, []string{"j~ACCEPT", "p~n~udp~" + u + "~0", fmt.Sprintf("dp~%s~%d~%s", ps, z, o), fmt.Sprintf("sp~%s~%d~%s", ps, z, o)})
+					}
+				}
+				one = append(one, []string{"j~ACCEPT", "p~n~tcp~" + u + "~0", "syn~" + o + "~0"}, []string{"j~ACCEPT", "p~n~tcp~0~0", "syn~" + o + "~1", "m~" + map[string]string{"0": "tcp", "1": "TCP"}[u]})
+				one = append(one, []string{"j~LOG", "ll~7~" + o}, []string{"j~LOG", "ll~4~" + o})
+			}
+		}
+		for _, x := range bools {
+			for _, v := range [][2]string{{"1", "1"}, {"1", "0x01"}, {"f", "15"}, {"f", "0X0F"}, {"f", "0x0f/0xffffffff"}, {"f", "0XF/0XFFFFFFFF"}, {"10", "020"}, {"7fffffff", "2147483647"}, {"0", "0"}} {
+				one = append(one, []string{"j~MARK", "mk~" + v[0] + "~" + x + "~" + v[1]})
+			}
+		}
+		sts := []string{"E", "R", "N", "I", "U"}
+		for i := range sts {
+			for j := range sts {
+				for k := range sts {
+					if i != j && j != k && i != k {
+						one = append(one, []string{"j~ACCEPT", "m~state", "st~" + sts[i] + sts[j] + sts[k]})
+					}
+				}
+			}
+		}
+		for _, r := range one {
+			for _, names := range []bool{false, true} {
+				rs := []aTable{{Name: "filter", Chains: []aChain{{Name: "INPUT", Policy: "DROP", Rules: [][]string{r}}}}}
+				runCase(&c05Case{Stream: "exhaustive-spellings", Abstract: true, Names: names, TgtRS: rs, DevRS: cloneRS(rs)})
+			}
+		}
+		res.Notes = append(res.Notes, "exhaustive: 16 device route sets x 41 target sequences over 4 keys; every hint combination of single-rule spellings per option kind, both protocol printing styles")
+	}
 	// normalizeIPTables and parseIPTables through the exports
 	for i := 0; i < ctx.N(600, 30000); i++ {
 		rng := ctx.Rng.Fork()
